@@ -1,81 +1,7 @@
-# Per-property claim texts. Edited as the contracts grow; mkmanifest.py turns this into MANIFEST.json.
-CLAIMS = {
- "C11": {
-  "text": "Proved for all inputs, per function: the node-level operations the B+ tree shape invariants rest on (binary search findCellOffsetByKey with loop invariant and termination, cellKey, isFull against the capacity constants, appendLeafCell/appendInternalCell/insertLeafCell as sequence insertions preserving slot well-formedness, split moving the upper half and returning the separator), and one level of the tree: insertLeaf keeps the leaf well-formed and compact without a split; with a split both halves are well-formed, linked as siblings (right sibling of the old leaf = the new leaf, its left sibling = the old leaf), the parent stays well-formed and compact and gains exactly one separator cell pointing at the old right-most child while its rightOffset moves to the new leaf, or a fresh root with one cell is created and made the tree root; insertInternal (trees of height 2) does the same for an internal node that fills up; findCell and scanRight only ever dereference well-formed pages. The whole-tree induction (reachability through fetch, key ranges per subtree) is argued on paper and is not machine-checked.",
-  "note": "Assumed: A-ASC (ascending keys; compact right spine), parent.sorted, A-H2.bounded for insertInternal. Trusted: govc's SSA->SMT translation, the SMT solvers, heap type invariants, fileStore.fetch (every page it returns satisfies the node invariant and has the kind recorded for its offset).",
- },
-}
-CLAIMS["C09"] = {
-  "text": "Proved for all token lists: every production of sql/parser.go (28 productions plus match/requireMatch/curType/hasType/requireInt/unexpectedTypeErr), TokenList, Token.Val, tokenScanner.Cur/Next, stripQuotes and engine.parseSQL is free of run-time panics (index, slice bounds, nil dereference, failed type assertion) and terminates: each production and each list loop strictly decreases the measure (remaining tokens, production rank). The copied text/scanner (sql/go_scanner.go) is trusted, not verified.",
-  "note": "Trusted: sql.Scanner.{Init,Scan,Peek,TokenText} (copied Go text/scanner: assumed to terminate, not to panic and to return some string); axioms about package-level tables (EOFToken, literals) stated in sql/verif_contracts.go; memory exhaustion not modelled. The tokenising loop of parseSQL terminates only under the scanner assumption.",
- }
-CLAIMS["C15"] = {
-  "text": "Proved for all cache states and arguments: LRUCache.get/set, NewLRU and fileStore.setCache against an abstract recency sequence (container/list modelled by positions): the representation invariant (list and index map in bijection, size = length <= capacity) is preserved; a hit returns the stored page and moves it to the front keeping the relative order of the others; a miss with room pushes to the front and evicts nothing; a miss on a full cache evicts exactly the clean entry with the greatest position (least recently used among the clean ones), never a dirty one, and is refused iff every entry is dirty; ErrLRUCacheFull iff refused. Histories follow by induction on the invariant.",
-  "note": "Trusted: the position model of container/list in /verif/stubs/list.spec (Back, Prev, PushFront, MoveToFront, Remove, Len, New); Go map semantics as modelled (presence array + counted length).",
- }
-CLAIMS["C05"] = {
-  "text": "Proved for all inputs, per function of engine/select.go: the comparison evaluator (evalComparisonPredicate: =, != on literals; <, <=, >, >= equal the integer / string order for operands of equal type and are an error for int-vs-string), evalOr/evalAnd on boolean operands and their error on non-boolean operands, evaluate's dispatch, evalPrimary/findColumnInFieldList (column resolution: unique unqualified match, first qualified match), filterRows (result is an order-preserving sub-list; everything for TRUE, nothing for FALSE), limit/offset (exact slice arithmetic), projectColumns/sortColumns shape (every row has one value per select item; sort only permutes rows), the ORDER BY comparator's panic-freedom under the type check that precedes sort.Slice, and EvaluateSelect's stage order obligations (each stage's precondition follows from the previous stage's postcondition). The end-to-end 'result = reference meaning of the SQL text' is argued from these contracts on paper (DESIGN.md C05), not machine-checked; aggregateRows is only partially specified.",
-  "note": "Trusted: RelationManager interface contracts (Fetch returns rows of the width of its field list, fresh and pairwise distinct objects), sort.Slice permutes and calls less only on valid indices, strings.Compare total order axioms. Assumed at three sites: rows of a result set are pairwise distinct objects (assume distinct-rows). Parser faithfulness is C10.",
- }
-CLAIMS["C06"] = {
-  "text": "Proved for all inputs: nestedLoopJoin returns, for TableName, the fetched rows with every field's TableID set; for INNER/LEFT/RIGHT QualifiedJoin, rows whose width equals the concatenated field list (so NULL padding has exactly the width of the other side, on the correct side) for every nesting depth (modular over the recursive call); Row.Merge is the concatenation l.Vals ++ r.Vals in a fresh row whose Vals array is fresh (no aliasing with the operands); Fields.LookupFieldIdx returns the unique index or ErrFieldAmbiguous (two matches) / ErrFieldNotFound (none); LookupColIdxByID returns the first index matching table id and column. That the output is the multiset of matching pairs is argued from the loop structure on paper.",
-  "note": "Trusted: RelationManager.Fetch contract; evaluate's result for the ON condition is only typed (bool or error), its value semantics is C05. Join multiset equality is not machine-checked (alternating quantifiers).",
- }
-CLAIMS["C07"] = {
-  "text": "Proved: emptyAggregateRow returns exactly one row with 0 for every COUNT/AVG item; SelectList.HasAggrFunc is exact; aggregateRows returns its input unchanged when there is no aggregate, one row for an implicit aggregation of an empty input, no row for GROUP BY over an empty input and never more rows than it was given (partial correctness: for runs that return normally); projectColumns keeps one value per select item. NOT proved: the per-group COUNT/AVG arithmetic and the group-key construction of aggregateRows (its no-panic and shape obligations are assumed and listed); DESIGN.md records the known defects there (non-injective group key, rounded running average, GROUP BY alias resolution).",
-  "note": "aggregateRows carries a 'partial' contract: 544 implicit obligations (no-panic, callee preconditions, frame) and two postconditions (shape, star) are assumed, not proved. Trusted: fmt.Sprintf as an unknown function.",
- }
-CLAIMS["C17"] = {
-  "text": "Proved on the real functions with a ghost counter of open stores (one flush timer each): Session.ExecQuery keeps the session invariant (a selected database has an open service; exactly one store is open iff a service is attached) on every path, leaves CurDB and the service unchanged whenever it returns an error without having opened or closed a store (USE of a missing database, parse errors, statement errors), and releases the statement bracket; storage.OpenRelation returns either a service and exactly one more open store, or an error and no additional open store (every error path releases the store it started). Per-database file isolation and restart behaviour are not decided here (file-system semantics; C02).",
-  "note": "Trusted: newFileStore/abandon/Close contracts on the open-store counter, dbFilePath/walFilePath/newWal/open (file system), CreateDB and ShowDB as seen from the engine. The flush timer itself (goroutine, select) is outside the supported subset.",
- }
-CLAIMS["C18"] = {
-  "text": "Proved for all statements that satisfy the parser's postconditions (sql.stmtWF, itself proved for Parser.Parse and every production) and all row contents (any value may be NULL or of any of the four types): Session.ExecQuery, EvaluateSelect/Insert/Update/Delete/CreateTable, nestedLoopJoin, projectColumns, sortColumns and its comparator, filterRows, evaluate/evalOr/evalAnd/evalComparisonPredicate/evalPrimary, limit/offset, emptyAggregateRow and the storage lookups they call are free of run-time panics (index, slice, nil dereference incl. a nil RelationService, failed type assertion, explicit panic), and every Evaluate* releases its statement bracket on every path (no self-deadlock). aggregateRows' own no-panic obligations are NOT proved (partial contract, listed).",
-  "note": "Trusted: RelationManager interface contracts, printTable, fmt/strings stubs, sort.Slice. Assumed: result rows are pairwise distinct objects. Termination of the executor loops is by range over finite slices (checked for the parser, C09); storage-level functions behind RelationManager are covered by C01/C02/C11 obligations, not here.",
- }
-CLAIMS["C13"] = {
-  "text": "Proved as a lock typestate over the ghost 'txn' (0 no lock, 1 shared statement lock, 2 exclusive flush lock) on the real functions: every function that reads or changes page, cache or header state of a store whose flush timer runs (fileStore.fetch/append/incrLSN/incrementLastKey/setPageTableRoot/nextLSN/getLastKey, BTree.getRoot/insert/insertKey/findCell/scanRight, RelationService.Insert/Update/MarkDeleted/getRelationFileOffset/getRelationSchema/updatePageTable/createPage/insertPageTable/insertSchemaTable and their scan closures) is only called with a lock held; page and header writes (fileStore.update/save) are only called with the exclusive lock, which flushPages takes and releases on every path and never acquires re-entrantly; StartTxn/EndTxn and every engine Evaluate* bracket the statement, the log append (FlushWALBatch) happens inside the bracket, and the bracket is released on every exit; CreateTable changes the catalog under the statement lock and flushes only after releasing it. NOT decided here: the interleavings themselves (mutual exclusion of sync.RWMutex is trusted, the timer goroutine and its select loop are outside the supported subset), OpenRelation/CreateDB (trusted; they touch a store before any lock is taken), the signal handler goroutine.",
-  "note": "Trusted: sync.RWMutex gives mutual exclusion between shared and exclusive holders (lockShared/unlockShared/lockExclusive/unlockExclusive stubs); RelationManager interface contracts bind the engine to the storage typestate; fetch, insertKey, findCell, scanRight, getRelationSchema, update, save are trusted contracts (their bodies are not verified). One genuine defect found and fixed (CreateTable ran unlocked, demonstrated with the race detector).",
- }
-CLAIMS["C02"] = {
-  "text": "Proved per function, for all inputs, the LSN protocol redo logging rests on (DESIGN.md C02, L1-L8): BTree.insert hands out exactly the next LSN and the next row id and advances both counters by one; RelationService.Insert, Update, MarkDeleted and updatePageTable advance the LSN counter by exactly the number of log records they return (no two records of a history share an LSN); the scan closures of Update/updatePageTable keep 'nextLSN - len(batch)' invariant over any number of callbacks, stamp every page they change with the LSN of the record describing the change, and fill the record with that LSN, the page of the cell, the cell id and the opcode; insertLeaf stamps the leaf, the new right leaf and the parent/new root with the LSN it was given; Insert's first record carries the LSN and row id from BTree.insert; every Evaluate* flushes its batch exactly once on success and not at all on error; wal.flush writes every record of the batch; recovery (WALBatch.replay, verified body): never lowers the LSN counter, leaves it above every LSN in the log, never lowers the row id counter, touches no page without fetching it, and ends with a page flush under the exclusive lock. NOT decided: the crash/flush-schedule quantifier itself, the WAL and page codecs (opaque streams), that replay's re-execution reproduces the original pages (needs the whole-tree argument of C01), fsync semantics.",
-  "note": "Assumed (listed in evidence): the 64-bit LSN counter and the 32-bit row id counter do not wrap; log well-formedness for replay (update/delete records name leaf pages); getRelationFileOffset$1 may not panic on its int64 type assertion (allowpanic assert). Trusted: scanRight's callers' closures are verified against its callback protocol; fetch, insertInternalCell, the stream stubs. Genuine defects found and fixed: MarkDeleted did not advance the LSN; recovery lowered the LSN counter.",
- }
-CLAIMS["C14"] = {
-  "text": "Proved per function, for all inputs: error frames of the storage operations a failing statement goes through - updateCell changes no cell when it returns an error; the Update/updatePageTable scan closures change no cell, no page stamp, no LSN and append no record on their error returns; MarkDeleted returns an empty batch, leaves every deleted flag and the LSN unchanged on error; Insert returns an empty batch and leaves the LSN unchanged whenever it fails before a row id is consumed; getRelationFileOffset returns 0 with its error; the engine's Evaluate* functions release the statement bracket on their error paths. NOT proved: statement-level atomicity of multi-row INSERT/UPDATE (rows before the failing k-th row stay applied - a known defect of the engine loop recorded in DESIGN.md, outside what these per-function contracts state), CreateTable's catalog rollback, behaviour after restart.",
-  "note": "Trusted: RelationManager interface contracts, insertKey, scanRight, Tuple.Encode (validation) contracts.",
- }
-CLAIMS["C08"] = {
-  "text": "Proved per function, for all inputs: FieldDef.Validate accepts exactly the values of the column's type (INT: an int64 within 32 bits, BIGINT: any int64, VARCHAR: a string, BOOLEAN: a bool; exact dynamic type, so named types and nil are refused) and returns ErrIntOutOfRange / ErrTypeMismatch otherwise; Tuple.Encode returns an error unless every non-NULL value of the tuple is valid for its column (so an invalid value is never encoded), never panics for a well-formed schema and touches only its own buffer; Tuple.Decode never panics and writes only the tuple's value map; checkRowSizeLimit refuses exactly the values longer than the limit and insertLeafCell / updateCell change nothing when they refuse; Token.Val maps STR/TRUE/FALSE literals to the exact string/bool. NOT proved: that Decode(Encode(v)) = v byte for byte (the content of bytes.Buffer / encoding/binary streams is not modelled, only that they are written and read), the page codec (C12), eviction and restart.",
-  "note": "Trusted: encoding/binary.Write/Read and bytes.Buffer as opaque streams (a write or read changes only the buffer; Read stores some value of the pointee's type), strconv for INT literals, axiom catalogSchemas (the two built-in catalog schemas use the four known column types). One genuine defect found and fixed (Validate accepted named types and panicked).",
- }
-CLAIMS["C01"] = {
-  "text": "Proved per function, for all inputs, the storage transitions a statement history is made of: btreeNode.insertLeafCell / appendLeafCell / appendInternalCell are sequence insertions that keep every other cell; btreeNode.split moves exactly the upper half (keys, values, sizes and tombstones) to the new page and keeps the lower half; updateCell replaces exactly the value of the cell with the given key; BTree.insertLeaf (full one-level functional contract, under the ascending-key assumption A-ASC): without a split the new cell is appended and every other cell, the parent and the root are unchanged; with a split the left leaf keeps its first 4 cells, the fresh right leaf holds the other 4 unchanged (incl. tombstones) plus the new cell, the sibling links connect the two, the parent (or a fresh root) gets one separator with the right leaf's first key pointing at the old right-most child, and no other page's cells change; BTree.insertInternal for trees of height 2 and BTree.insertKey on top of it; BTree.insert hands out row id lastKey+1; BTree.findCell returns a live cell with the requested key in the leaf it reports; BTree.scanRight calls back only live cells of well-shaped leaves along the sibling chain; the Update closure changes only cells with the requested row id; MarkDeleted tombstones only findCell's result; the catalog root recorded by insertPageTable is the tree root after the insert; file offsets of existing pages are never rewritten. NOT proved: the induction over the whole tree and over statement histories (that lookups are routed to the leaf an insert chose; trees deeper than 2 in insertInternal - bounded stand-in), scanRelation/Fetch row decoding, equality of SELECT * with a reference model - argued on paper (DESIGN.md / DESIGN-plan.md C01).",
-  "note": "Assumed (listed in evidence): A-ASC (keys are inserted in ascending order: the target leaf is the compact right-most leaf, a splitting leaf's separator is appended to its parent - the insertInternalCell branch is assumed dead), parent.sorted (the parent stays sorted after the append), A-H2.bounded (insertInternal is verified only when the child is a leaf). Trusted: fileStore.fetch, getRelationSchema, insertInternalCell. Termination of the descent loops is not proved. Genuine defects found and fixed: leaf split dropped tombstones; recovery lowered the LSN counter (stale catalog root).",
- }
-CLAIMS["C16"] = {
-  "text": "Proved per function, for all cache states: the page cache only ever evicts clean pages (LRUCache.set: a miss on a full cache removes exactly the least recently used clean entry, never a dirty one, and is refused with ErrLRUCacheFull iff every entry is dirty; fileStore.setCache / append pass that on), a hit returns the page object that was stored under the offset, the cache never exceeds its capacity, a page is marked clean by flushPages only after fileStore.update returned without error, and markDirty/markClean/isDirty are exact. Together with the trusted contract of fetch (a miss decodes the page image at that offset) this is the argument that an evicted page equals its disk image; the equality of whole workloads under different capacities is argued on paper from these contracts, not machine-checked.",
-  "note": "Trusted: fileStore.fetch (cache hit / decode on miss), fileStore.update (writes the page image), the container/list position model. The page codec round trip is C12 (not claimed).",
- }
-CLAIMS["C10"] = {
-  "text": "Proved for all token lists, per production of sql/parser.go, structural faithfulness facts (not the full text-to-tree function): every expression production returns a node of the expression grammar (exprKind), Predicate/ComparisonPredicate/ValueExpression never return AND/OR nodes, AndCondition never returns an OR node nor an AND whose right operand is an OR (AND binds tighter than OR), AndCondition/OrCondition are maximal (they stop only at a token that is not AND / not AND-or-OR), the ON condition of a join and the WHERE condition are maximal OrConditions, FromClause returns exactly one well-formed table reference when FROM is present, SELECT/INSERT/UPDATE/DELETE/CREATE statements satisfy stmtWF (the shapes the executor relies on), Token.Val and stripQuotes handle literals exactly, the token cursor only moves forward and every production terminates. NOT proved: that the tree is the unique parse of the text (no reference grammar is formalised), that all input tokens are consumed, GROUP BY / ORDER BY list contents; DESIGN.md records the known deviations there.",
-  "note": "Trusted: the copied text/scanner. This is a partial claim: structural postconditions on the real productions, not an equality with a specification parser.",
- }
-CLAIMS["C03"] = {
-  "text": "Proved per function, for all inputs, the logging side of the property: wal.flush issues, for a batch of n records and in batch order, exactly 2n write calls on the log file - a 4-byte length prefix followed by the record body - and one sync per record when forceSync is set; when it stops early (error) what it has written is a prefix of that sequence with every completed length prefix 4 bytes long, so a cut of the log falls inside at most one record and earlier records are whole; its two explicit panics are unreachable; WALEntry.encode/decode and wal.read are free of run-time panics and wal.read's explicit panics are unreachable; RelationService.FlushWALBatch passes the batch through under the statement lock; the engine appends records in row order and flushes once (C02 L4 clauses). KNOWN FINDING (open, replayed on the real code): wal.read returns EOF / ErrUnexpectedEOF for a log that ends inside a record, so the database does not start after such a crash. NOT decided: the crash-point quantifier itself, which bytes of an unsynced write survive, replay of a record prefix (WALBatch.replay is not under contract), record atomicity of root moves.",
-  "note": "Trusted: the write/sync trace model of the log file (readWriteSyncCloser.Write/Sync), io.ReadFull on a reader with a ghost count of remaining bytes, encoding/binary and bytes.Buffer as opaque streams.",
- }
-CLAIMS["C19"] = {
-  "text": "Proved for all inputs: csvimport.csvToSql, the function that turns one accepted CSV record into the values of one INSERT row, returns exactly one value per mapped column; the value is NULL iff the field is the \\N marker; for INT and BIGINT columns it is the int64 value of strconv.Atoi of the field and the record is refused when Atoi fails; for VARCHAR columns it is the field itself; for BOOLEAN columns it is a bool; it never indexes outside the record or the configuration when every mapped column index is below the record length (the check doBatchInsert makes first). NOT proved: the CSV reader, the batching goroutine and its channels (outside the supported subset), that records are inserted in input order, colDataTypes' schema query, EvaluateInsert's effect (C01/C08/C14).",
-  "note": "Trusted: strconv.Atoi as an uninterpreted function with a success flag, strings.ToLower. One genuine defect found and fixed (BIGINT fields were imported as NULL).",
- }
-CLAIMS["C12"] = {
-  "text": "Proved per function, for all nodes and all page contents, over a byte-level model of bytes.Buffer / encoding/binary (little-endian fixed-width values and byte slices; /verif/govc/streams.go): btreeNode.encodeLeaf and encodeInternal never fail or panic for a node within capacity (at most 9 leaf cells with values of at most 400 bytes and valueSize == len(valueBytes); at most 290 internal cells), produce exactly 4096 bytes (the explicit size panic is unreachable, the free-size computation cannot wrap), start with the kind byte fetch dispatches on, and lay out exactly the logical content of the node: header fields, slot offsets, free size, and the cells in slot order (leaf: key, tombstone, value size, value bytes at the prefix-sum position; internal: key, child offset) - stated against 'the abstract page', a family of uninterpreted functions, so the statement holds for the content of every node; btreeNode.decodeLeaf and decodeInternal, given a buffer holding such an image of a well-formed abstract page, never fail or panic, consume exactly 4096 bytes and build a node with exactly that content (cells stored at the slot index the offset table names, every slot non-nil); encode / decode dispatch correctly on isLeaf; lemmas rtLeaf / rtInt (two nodes with the content of the same abstract page have identical logical content) and wfLeaf / wfInt (the abstract page of an encodable node satisfies decode's precondition) close the round trip decode(encode(n)) ~ n; isFull agrees with the capacity constants. NOT proved/decided: that fileStore.update / fetch move exactly these 4096 bytes to and from the file (os.File is not modelled; fetch is trusted), nodes whose offset table names a cell index >= the cell count (not producible: cells are never removed), little-endian layout of encoding/binary itself (the trusted stream model).",
-  "note": "Trusted: the byte-level stream model (binary.Write/Read on *bytes.Buffer, Buffer.Write/Read/Next/Len/Bytes; a slice handed out by Bytes() or passed to NewBuffer is treated as a copy). Assumed (listed in evidence as axioms): alPos0/alPosS define the cell positions of the abstract leaf page as prefix sums, alSizeNN (sizes are non-negative), alPosMono (positions are monotone - a consequence of the two by induction, stated as an axiom because the solvers do not do induction). The step 'every node has an abstract page' is the standard logical-variable argument (the contracts are proved for every interpretation of the abstract functions), given on paper in DESIGN.md.",
- }
+# Per-property claim texts live in claims.json (edited as the contracts grow); mkmanifest.py turns them into MANIFEST.json.
+import json, os
+_here = os.path.dirname(os.path.abspath(__file__))
+CLAIMS = json.load(open(os.path.join(_here, "claims.json")))
 ALL = ["C%02d" % i for i in range(1, 21)]
-NOT_APPLICABLE_REASONS = {
- "C04": "Not decidable by contracts on one call: the property quantifies over cuts of the page-write sequence of a flush and over what recovery does with each cut. That needs a statement that the effects of a log record skipped by replay are already on disk, which refers to the history that produced the log and is not expressible as a pre/postcondition of WALBatch.replay, and a model of the data file (os.File WriteAt/ReadAt), which govc does not have. The obligations in reach are proved under other properties: C12 (a page image is exactly the node's content and reads back as the same node), C13/C16 (flushPages holds the exclusive lock, marks a page clean only after it was written, every written page is clean at the end) and C02 (replay never lowers the counters). See DESIGN.md section 5.",
- "C20": "cmd/console is the copied x/term line editor with the statement splitting inlined in a 150-line key handler over rune buffers and escape sequences; no contract within reach of govc's subset was written for it. See DESIGN.md section 5.",
-}
+NOT_APPLICABLE_REASONS = json.load(open(os.path.join(_here, "not_applicable.json")))
 NOT_APPLICABLE = {p: NOT_APPLICABLE_REASONS[p] for p in ALL if p not in CLAIMS}
